@@ -24,7 +24,7 @@ ASSUMPTIONS = ['initial sets are passed as lists (a set argument legitimately it
 BUDGET = {'quick': 160, 'thorough': 1500}
 CHUNK = {'quick': 25, 'thorough': 100}
 CASE_TIMEOUT = 1800
-REQUIRED = ['repeat_pairs_compared', 'tripwire_calls_monitored', 'mode_pairs_compared', 'hash_batches', 'hash_digests_compared']
+REQUIRED = ['uneven_weight_runs', 'repeat_pairs_compared', 'tripwire_calls_monitored', 'mode_pairs_compared', 'hash_batches', 'hash_digests_compared']
 CONT = [s for s in simreg.ALL_SIMS if s not in simreg.DISCRETE]
 
 
@@ -46,6 +46,26 @@ def gen_cases(tier, seed):
         if c.get('R0_form') in ('set', 'iterator', 'generator'):
             c['R0_form'] = 'list'
         c['ic_defaultdict'] = (k % 5 == 4)
+        if sim in ('Gillespie_SIR', 'Gillespie_SIS') and (k // len(simreg.ALL_SIMS)) % 4 == 1:
+            # very uneven weights, so that weighted selection regularly needs hundreds of proposals (any give-up / fallback path of the
+            # sampler is exercised): a hub with many light contacts and one heavy one, or a heavy bridge followed by light contacts
+            lbl = c['graph']['labels']
+            if r.random() < 0.5:
+                L = r.choice([100, 200])
+                g = {'n': L + 2, 'edges': [[0, i] for i in range(1, L + 2)], 'labels': lbl, 'kind': 'hubstar'}
+                ew = [1.0] * (L + 1)
+                ew[r.randrange(L + 1)] = 300.0
+                tau = 0.01
+            else:
+                L = r.randint(5, 12)
+                g = {'n': L + 2, 'edges': [[0, 1]] + [[1, i] for i in range(2, L + 2)], 'labels': lbl, 'kind': 'bridge'}
+                ew = [1000.0] + [1.0] * L
+                tau = 1.0
+            g['ew'] = {simcase.TW: ew}
+            c['graph'] = g
+            c.update({'wm': 'edge', 'tau': tau, 'gamma': 1.0, 'uneven': True, 'I0': [0], 'R0': [], 'I0_form': 'list', 'R0_form': 'list', 'tmin': 0,
+                      'tmax': 'inf' if sim == 'Gillespie_SIR' else 3.0})
+            c.pop('R0_explicit_empty', None)
         out.append(c)
     nb = 6 if q else 32
     for b in range(nb):
@@ -65,6 +85,9 @@ def gen_cases(tier, seed):
         out.append({'kind': 'hash', 'batch': batch, 'hashseeds': list(range(3)) if q else [0, 1, 2, 3, 5, 7, 11, 13, 17, 19, 23, 29, 31, 37, 41, 43, 47, 53, 59, 61, 67, 71, 73, 79],
                     'seed': cs})
     return out
+
+
+_GEN_TYPES = (np.random.Generator, np.random.RandomState, np.random.BitGenerator, random.Random)
 
 
 class Tripwires(object):
@@ -88,12 +111,47 @@ class Tripwires(object):
                       self._wrap(_r, 'SystemRandom', 'random.SystemRandom'), self._wrap(_r, 'Random', 'random.Random()'),
                       self._wrap(np.random, 'seed', 'numpy.random.seed'), self._wrap(np.random, 'default_rng', 'numpy.random.default_rng'),
                       self._wrap(np.random, 'RandomState', 'numpy.random.RandomState')]
+        # generator objects the library created earlier (at import, cached on a module or class): every method call on them is a draw
+        # from a source the two seeds do not control
+        self.spied = []
+        hits = self.hits
+        for mname, mod in list(sys.modules.items()):
+            if mod is None or not (mname == 'EoN' or mname.startswith('EoN.')):
+                continue
+            holders = [mod] + [v for v in vars(mod).values() if isinstance(v, type) and getattr(v, '__module__', '') == mname]
+            for h in holders:
+                for aname, val in list(vars(h).items()):
+                    if isinstance(val, _GEN_TYPES) and not isinstance(val, _Spy):
+                        try:
+                            setattr(h, aname, _Spy(val, '%s.%s' % (getattr(h, '__name__', mname), aname), hits))
+                            self.spied.append((h, aname, val))
+                        except (AttributeError, TypeError):
+                            pass
         return self
 
     def __exit__(self, *exc):
         for obj, name, orig in self.saved:
             setattr(obj, name, orig)
+        for h, aname, val in self.spied:
+            setattr(h, aname, val)
         return False
+
+
+class _Spy(object):
+    def __init__(self, target, label, hits):
+        object.__setattr__(self, '_t', target)
+        object.__setattr__(self, '_l', label)
+        object.__setattr__(self, '_h', hits)
+
+    def __getattr__(self, name):
+        a = getattr(self._t, name)
+        if callable(a):
+            def w(*args, **kw):
+                k = 'private generator %s.%s' % (self._l, name)
+                self._h[k] = self._h.get(k, 0) + 1
+                return a(*args, **kw)
+            return w
+        return a
 
 
 def _digest(call, out):
@@ -123,6 +181,8 @@ def run_case(case):
         with Tripwires() as tw:
             a = call.f(*call.args, **call.kw)
         bump(res, 'tripwire_calls_monitored')
+        if case.get('uneven'):
+            bump(res, 'uneven_weight_runs')
         st_a = (random.getstate(), np.random.get_state()[1].tobytes(), np.random.get_state()[2])
         # "repeated calls": the caller naturally passes the very same argument objects again (graph, IC mapping, spec graphs, containers)
         call2 = call
